@@ -95,8 +95,6 @@ def configs(tier):
             for a, b in itertools.combinations(singles, 2):
                 if set(a) & set(b):
                     continue
-                if (hash(json.dumps([a, b], sort_keys=True)) % 4) and base is not BASES[1]:
-                    continue  # the two larger bases take a quarter of the pairs; the smallest grid takes all of them
                 c = dict(base)
                 c.update(a)
                 c.update(b)
@@ -268,13 +266,14 @@ def main(tier):
         "evaluations": counts["api_runs"] + counts["cli_runs"] + 2 * counts["stat_pairs"] + counts["valgrind_runs"],
         "distinct_nontrivial": len(outcomes),
         "counts": counts, "configurations": len(cfgs),
-        "rule": "configurations = 3 bases + every single deviation over 26 options (value alphabets incl. disabled and zero tolerances, "
+        "rule": "configurations = 3 bases + every single deviation over %d options (value alphabets incl. verbosity, paraview output, the "
+                "solver's grid-file options, Rmax, disabled and zero tolerances, "
                 "zero smoothing steps, maxIterations 0/1/2, level caps 1/2/10, non-coarsenable and smallest grids, anisotropy with in- and "
-                "out-of-domain jump radius, take without caches, Culham / refined problems, 16 threads, reduction factor 0.1) + 19 "
-                "hand-picked pairs (+ all pairs on the smallest base, a quarter on the others, in the thorough tier); each through the "
+                "out-of-domain jump radius, take without caches, Culham / refined problems, 16 threads, reduction factor 0.1) + %d "
+                "hand-picked pairs (+ ALL pairs of single deviations on every base in the thorough tier); each through the "
                 "API under ASan+UBSan with assertions on AND with NDEBUG, through the gmgpolar executable (plus invalid enum integers / "
                 "malformed arguments that must be rejected), twice in the release build with different stack and heap fill patterns, and "
-                "a slice under valgrind memcheck; distinct = distinct outcomes (rejection message / iterations x levels)",
+                "a slice under valgrind memcheck; distinct = distinct outcomes (rejection message / iterations x levels)" % (len(ALPHABET), len(PAIRS)),
         "samples": [c01.short(cfgs[1]), c01.short(cfgs[-1]), " ".join(cli_jobs[-1][2])],
         "exhaustive": True,
     }
